@@ -205,6 +205,44 @@ def gen_topdown_case(rng, refine=None, max_instances=None, counts=(0, 1, 1, 2, 2
             "max_instances": max_instances, "n_nodes": n_nodes, "videos": videos}
 
 
+def gen_topdown_focus(rng, refine=None):
+    """Focused family (bias from the proof: the only things `topdown_roundtrip` needs are the crop
+    hypothesis and the bbox offset): stride padding really applied at the centroid stage (scaled size
+    not divisible by max_stride), an animal in the far (bottom-right) corner, a small crop that only
+    just covers the animal (keypoints at the largest offsets that are still robustly inside)."""
+    for _ in range(200):
+        H, W = 4 * rng.randrange(10, 25), 4 * rng.randrange(10, 25)
+        sc = rng.choice([0.5, 0.75, 1.0, 1.5])
+        ms_c = rng.choice([8, 16])
+        max_hw = rng.choice([[None, None], [None, None], [H + 4 * rng.randrange(0, 6), W + 4 * rng.randrange(0, 6)]])
+        mh, mw = max_hw[0] or H, max_hw[1] or W
+        if int(mh * Fr(*SCALES[sc])) % ms_c and int(mw * Fr(*SCALES[sc])) % ms_c:
+            break
+    os_c = rng.choice([d for d in (1, 2, 4) if ms_c % d == 0])
+    si, ms_i, os_i = gen_stage(rng)
+    eff = float(stubs.eff_scale_nominal(H, W, max_hw[0], max_hw[1]))
+    a_i = eff * si
+    crop = [rng.choice([16, 24, 32]), rng.choice([16, 24, 32])]
+    n_nodes = 3
+    e_c = os_c / (2.0 * sc) * si + 0.25
+    frs = []
+    for _ in range(rng.randrange(1, 3)):
+        cx = round((W - 2.5 - 4 * rng.random()) * 16) / 16 + 1 / 64
+        cy = round((H - 2.5 - 4 * rng.random()) * 16) / 16 + 1 / 64
+        pts = []
+        for k in range(n_nodes):
+            rx = max((crop[1] / 2 - 2.0 - e_c) / a_i, 0.25)
+            ry = max((crop[0] / 2 - 2.0 - e_c) / a_i, 0.25)
+            sx, sy = [(-1, -1), (-1, 1), (1, -1)][k]
+            px = min(max(cx + sx * rx * (0.9 + 0.1 * rng.random()), 0.5), W - 1.5)
+            py = min(max(cy + sy * ry * (0.9 + 0.1 * rng.random()), 0.5), H - 1.5)
+            pts.append([round(px * 16) / 16 + 1 / 64, round(py * 16) / 16 + 1 / 64])
+        frs.append({"H": H, "W": W, "animals": [{"centroid": [cx, cy], "pts": pts}]})
+    return {"pipeline": "topdown", "sc": sc, "os_c": os_c, "ms_c": ms_c, "si": si, "os_i": os_i, "ms_i": ms_i,
+            "crop_hw": crop, "max_hw": max_hw, "batch": rng.randrange(1, 4), "refine": refine,
+            "max_instances": None, "n_nodes": n_nodes, "videos": [frs], "family": "focus_pad_far_corner"}
+
+
 # ------------------------------------------------------------------ implementation drivers
 def impl_single(case, provider, vids):
     import sleap_io  # noqa
@@ -235,12 +273,12 @@ def impl_topdown(case, provider, vids):
     flat = [f for v in vids for f in v]
     scene = Scene(flat, case["n_nodes"])
     labels, svids = stubs.make_labels(vids, node_names=[f"n{i}" for i in range(case["n_nodes"])],
-                                      order=case.get("order"))
+                                      order=case.get("order"), ramp=True)
     p, cnet, inet = stubs.build_topdown(
         scene, labels.skeletons, sc=case["sc"], os_c=case["os_c"], ms_c=case["ms_c"], si=case["si"],
         os_i=case["os_i"], ms_i=case["ms_i"], crop_hw=case["crop_hw"], max_hw=tuple(case["max_hw"]),
         batch_size=case["batch"], refinement=case["refine"], max_instances=case.get("max_instances"),
-        threshold=THR)
+        threshold=THR, is_rgb=True)
     out = stubs.run_predict(p, provider, labels if provider == "LabelsReader" else svids[0])
     rows = []
     for gi, o in enumerate(out):
@@ -257,7 +295,9 @@ def impl_topdown(case, provider, vids):
                          "vals": [float(v) for v in o["pred_peak_values"][r]],
                          "cval": float(o["centroid_val"][r]),
                          "code": lg["code"], "animal": lg["animal"], "a": lg["a"], "hw": list(lg["hw"]),
-                         "crop_tl": list(lg["tl"]), "cms": inet.cms_log[gi][r]})
+                         "crop_tl": list(lg["tl"]), "tl_bbox": list(lg["tl_bbox"]),
+                         "tl_px": None if lg["tl_px"] is None else list(lg["tl_px"]),
+                         "tl_mismatch": lg["tl_mismatch"], "cms": inet.cms_log[gi][r]})
     # centroid stage log: one entry per frame in reader order
     cen = []
     for ci, entries in enumerate(cnet.log):
@@ -283,6 +323,36 @@ def oracle_point(p_true, got, val, bound, label):
     if err > bound + TOL:
         return f"{label}: keypoint {p_true} returned at {got}: error {err:.4f} px > half a cell {bound:.4f} px"
     return None
+
+
+def robust_inside(case, fr, an, eff):
+    """Per keypoint: does it stay in the crop's grid range for EVERY centroid estimate a correct
+    centroid stage may return (within half a centroid cell of the true centroid)?  Pure geometry of
+    the true labels and the configuration; independent of the model and of the implementation."""
+    sc, si, os_c, os_i, ms_c, ms_i = case["sc"], case["si"], case["os_c"], case["os_i"], case["ms_c"], case["ms_i"]
+    ch, cw = case["crop_hw"]
+    mh, mw = case["max_hw"]
+    a_c, a_i = eff * sc, eff * si
+    # the centroid itself must be in the range of the centroid grid
+    hin = pad_to(int((mh or fr.H) * Fr(*SCALES[sc])), ms_c)
+    win = pad_to(int((mw or fr.W) * Fr(*SCALES[sc])), ms_c)
+    cx, cy = an.centroid
+    if not (cx * a_c <= (math.ceil(win / os_c) - 1) * os_c + os_c / 2 and cy * a_c <= (math.ceil(hin / os_c) - 1) * os_c + os_c / 2):
+        return [False] * len(an.pts)
+    e_c = os_c / (2.0 * sc) * si + 0.25          # admissible centroid error, in crop-stage pixels (+ slack)
+    out = []
+    for p in an.pts:
+        if p is None:
+            out.append(False)
+            continue
+        ok = True
+        for pc, cc, size in ((p[0], cx, cw), (p[1], cy, ch)):
+            qmax = (math.ceil(pad_to(size, ms_i) / os_i) - 1) * os_i + os_i / 2
+            lo = pc * a_i - (cc * a_i + e_c - size / 2 + 0.5)
+            hi = pc * a_i - (cc * a_i - e_c - size / 2 + 0.5)
+            ok = ok and lo >= 0.0 and hi <= qmax
+        out.append(ok)
+    return out
 
 
 # ------------------------------------------------------------------ one case, both providers
@@ -559,6 +629,16 @@ def check_topdown(chk, case, providers=("LabelsReader", "VideoReader")):
             if r["hw"] != [m["hi"], m["wi"]] or mt["chw"] != [m["hc"], m["wc"]]:
                 chk.disagree("network input shapes == Decode.centroidInputShape/instanceInputShape", small,
                              [mt["chw"], r["hw"]], [[m["hc"], m["wc"]], [m["hi"], m["wi"]]])
+            # ---- hypothesis of `topdown_roundtrip`: the crop the network sees starts where
+            # `instance_bbox` (the offset later added to the crop-relative peaks) says; the stub reads
+            # the crop's position from the ramp channels of its pixels
+            if r["tl_px"] is None:
+                chk.tag("crop_position_not_readable_from_pixels")
+            else:
+                chk.tag("crop_position_read_from_pixels")
+                if r["tl_mismatch"]:
+                    chk.disagree("crop top-left (read from the crop's pixels) == instance_bbox top-left "
+                                 "(hypothesis of topdown_roundtrip)", small, r["tl_px"], r["tl_bbox"])
             if mt["ccell"] != (m["ccx"], m["ccy"]):
                 chk.disagree("centroid argmax of the ideal map == Decode.nearest", small, mt["ccell"], [m["ccx"], m["ccy"]])
             bad = []
@@ -590,11 +670,19 @@ def check_topdown(chk, case, providers=("LabelsReader", "VideoReader")):
             a_i = eff * case["si"]
             n_w = math.ceil(pad_to(cw, ms_i) / os_i)
             n_h = math.ceil(pad_to(ch, ms_i) / os_i)
+            robust = robust_inside(case, fr, an, eff)
             for k, p in enumerate(an.pts):
                 if p is not None:
+                    # "the crop contains the animal": decided from the TRUE geometry (every admissible
+                    # centroid estimate keeps the keypoint in the crop's grid range) — when that holds the
+                    # bound is asserted whatever crop the implementation took; otherwise fall back to
+                    # the crop the implementation reports
                     qx = (p[0] - r["bbox_tl"][0]) * a_i
                     qy = (p[1] - r["bbox_tl"][1]) * a_i
-                    if not (-1e-6 <= qx <= (n_w - 1) * os_i + os_i / 2 and -1e-6 <= qy <= (n_h - 1) * os_i + os_i / 2):
+                    in_impl = (-1e-6 <= qx <= (n_w - 1) * os_i + os_i / 2 and -1e-6 <= qy <= (n_h - 1) * os_i + os_i / 2)
+                    if robust[k]:
+                        chk.tag("keypoint_robustly_inside_ideal_crop")
+                    elif not in_impl or r["tl_mismatch"]:
                         chk.tag("keypoint_outside_crop_range_skipped")
                         continue
                     mp = m["pts"][k]
@@ -702,7 +790,15 @@ def main(chk: Check):
         cases.append(gen_single_case(rng, refine=("integral" if i % 3 == 2 else None)))
     for i in range(n_top):
         cases.append(gen_topdown_case(rng, refine=("integral" if i % 3 == 2 else None)))
+    for i in range(chk.n(14, 150)):
+        cases.append(gen_topdown_focus(rng, refine=("integral" if i % 4 == 3 else None)))
     run_cases(chk, cases)
+    # failing-input search: the correspondence broke but no input violates the property yet →
+    # sweep the focused family (×20 budget) where a wrong centroid/crop/offset becomes visible
+    if chk.disagreements and not chk.failing:
+        chk.tag("focused_search_runs")
+        run_cases(chk, [gen_topdown_focus(rng, refine=("integral" if i % 4 == 3 else None))
+                        for i in range(chk.n(120, 600))])
 
 
 def replay(chk: Check, payload):
@@ -725,16 +821,20 @@ if __name__ == "__main__":
             "integral refinement enters the model as a measured offset (harness float64 restatement on the rendered map); "
             "the half-cell bound under refinement assumes the offset does not move away from the truth (C06/C07)",
             "float32 arithmetic of the pipeline equals field arithmetic within 1e-3 px on the explored inputs (measured)",
-            "pixel-content registration of resize/crop (that the tensor content really is scaled by the nominal factor) is C04's; "
-            "the stub measures the content extent to tell which factor was applied",
+            "pixel-content registration of resize/crop at the sub-pixel level is C04's; the stub measures the content extent to "
+            "tell which scale factor was applied, and reads the position of every crop from the ramp channels of its pixels "
+            "(crop/bbox disagreement > 0.5 px is reported as a broken obligation and rendered as seen)",
             "harness/stubs.py (frame identification from pixel intensity, in-memory sio.Video/Labels, sio.load_* patched for make_pipeline)",
         ],
         rule="(H,W) in 4·[8,24] x (max_h,max_w) in {none, dyadic eff 1/2..2 (+padding), free} x scale {.5,.75,1,1.5} x max_stride "
              "{1,2,4,8,16} x output stride | max_stride x crop {16..48}² x batch 1..4 x refinement {none, integral} x provider "
              "{LabelsReader (1-2 videos), VideoReader}; keypoints on the k/16+1/64 lattice, 25% invisible; top-down: 0-3 animals "
-             "per frame ≥ 7 centroid cells apart; distinct = distinct (pipeline, provider, config, frame size, keypoints); "
+             "per frame ≥ 7 centroid cells apart (incl. animals closer to a border than half a crop); + focused family: centroid "
+             "stride padding really applied x far-corner animal x crop just covering it; distinct = distinct (pipeline, provider, config, frame size, keypoints); "
              "trivial = frame without animals",
-        assumptions=["keypoints in general position: a nearest-cell decision within 1e-3 px of a midpoint is skipped and counted",
+        assumptions=["crop contains the animal: asserted from the true geometry (keypoint in the crop's grid range for every "
+                     "centroid estimate within half a centroid cell), else from the implementation's own bbox",
+                     "keypoints in general position: a nearest-cell decision within 1e-3 px of a midpoint is skipped and counted",
                      "keypoints lie in the grid range of the tensor / crop (others are counted and not asserted)",
                      "integral refinement: half-cell bound asserted only when the 5x5 patch lies inside the map "
                      "(border patches are zero-padded and biased inward: C06/C07's domain); decode correspondence is still compared",
